@@ -140,6 +140,10 @@ def gen_outcomes(rnd):
     mode = rnd.choice(["plain", "cancel", "timeout", "racing_stop", "nonevent", "hostile", "bg_stream", "fail"])
     spec["meta"]["mode"] = mode
     steps = {s["name"]: s for s in spec["steps"]}
+    if mode in ("cancel", "timeout") and rnd.random() < 0.5:
+        for nm in ("work1", "work2", "tap"):
+            if nm in steps:
+                steps[nm]["stream_on_cancel"] = True
     if mode == "cancel":
         spec["externals"] = [{"at": rnd.choice([0, 0.5, 1, 1.5, 2, 3, 4.5, 6]), "cancel": True}]
     elif mode == "timeout":
@@ -147,6 +151,9 @@ def gen_outcomes(rnd):
     elif mode == "racing_stop":
         steps["join"]["acts"] = [{"k": "sleep", "d": rnd.choice([0, 1])}, {"k": "ret", "type": "StopEvent", "result": "v"}]
         steps["join"]["nw"] = rnd.randint(2, 4)
+        for nm in ("work1", "work2", "tap", "join"):
+            if nm in steps and rnd.random() < 0.6:
+                steps[nm]["stream_on_cancel"] = True
     elif mode == "nonevent":
         steps["work2"]["acts"] = [{"k": "sleep", "d": {"from": "lat"}}, {"k": "ret", "type": "nonevent"}]
         steps["work2"]["declare"] = ["EvC"]
@@ -161,6 +168,9 @@ def gen_outcomes(rnd):
     elif mode == "bg_stream":
         steps["work2"]["acts"].insert(1, {"k": "stream"})
         steps["join"]["acts"].insert(0, {"k": "stream"})
+        for nm in ("work1", "work2", "tap"):
+            if nm in steps:
+                steps[nm]["stream_on_cancel"] = True
     elif mode == "fail":
         for it in steps["start"]["acts"]:
             if it["k"] == "send" and it["type"] == "EvA":
